@@ -105,7 +105,7 @@ func (m *Machine) token(v Value, depth int) string {
 	case SliceV:
 		var parts []string
 		for i := 0; i < x.len; i++ {
-			parts = append(parts, m.token(m.load(Ptr{obj: x.arr, path: []PathElem{{k: x.off + i}}}), depth+1))
+			parts = append(parts, m.token(m.load(elemPtr(x, i)), depth+1))
 		}
 		if len(parts) == 0 {
 			return "empty"
@@ -280,7 +280,7 @@ func (m *Machine) sameValue(a, b Value, depth int) *Cond {
 		}
 		c := m.cbool(true)
 		for i := 0; i < x.len; i++ {
-			c = cAnd(c, m.sameValue(m.load(Ptr{obj: x.arr, path: []PathElem{{k: x.off + i}}}), m.load(Ptr{obj: y.arr, path: []PathElem{{k: y.off + i}}}), depth+1))
+			c = cAnd(c, m.sameValue(m.load(elemPtr(x, i)), m.load(elemPtr(y, i)), depth+1))
 		}
 		return c
 	case BigV:
